@@ -1,5 +1,6 @@
 """C15 — TR-31 parsing fails only with its documented errors."""
-from core import Case, enc_b, enc_s
+import core
+from core import Case, enc_b, enc_s, enc_header, call_impl
 from props.tr31util import VERS, rb, rs, rand_blocks, make_header, genuine, split_block, unwrap_case, wrap_case, Session, PRINTABLE, ALNUM, tr31
 
 OBLIGATIONS = ["Psec.Props.C15.loadPure_spec", "Psec.Props.C15.load_documented", "Psec.Props.C15.unwrap_errors", "Psec.Props.C15.unwrapFn_errors", "Psec.Props.C15.header_api_errors", "Psec.Props.C15.wrap_errors", "Psec.Props.C15.load_wf", "Psec.Props.C15.step_wf", "Psec.Props.C15.reachable_wf", "Psec.Tr31.loadLoop_spec"]
@@ -125,6 +126,27 @@ def generate(rng, tier, seed):
                 c = Case(f"{ver}:unpadded-header-short-tail", {"block": blk, "tail": t})
                 targets(c, rng, rb(rng, ksizes[0]), s_)
                 yield c
+    # authentic blocks (built by the specification under the KBPK, so that the paths behind the MAC check are reached): arbitrary
+    # clear data behind a correct MAC, and - versions A / C, whose MAC covers the ciphertext - arbitrary ciphertext of any length,
+    # whole cipher blocks or not, empty included
+    for ver in "ABCD":
+        bs, ksizes, ml = VERS[ver]
+        for ksize in ksizes:
+            kbpk = rb(rng, ksize)
+            for nblk, bits in [(1, 0), (1, 7), (1, 8 * (bs - 2)), (1, 8 * (bs - 1)), (2, 0xFFFF), (2, 8 * (2 * bs - 2)), (3, 129), (0, 0)]:
+                clear = (bits.to_bytes(2, "big") + rb(rng, nblk * bs - 2)) if nblk else b""
+                h = make_header(rng, ver, rand_blocks(rng, rng.choice([0, 1])))
+                c = Case(f"{ver}:authentic-arbitrary-clear", {"bits": bits, "clear_len": len(clear)})
+                i = c.line("spec.tr31_build_raw\t" + "\t".join([enc_b(kbpk), enc_header(h), "s:", "i:0", enc_b(clear), "i:0"]))
+                c.deferred_auth = (kbpk, i)
+                yield c
+            if ver in "AC":
+                for el in (0, 1, 3, 4, 5, 7, 8, 9, 12, 15, 16, 20, 24, 28):
+                    h = make_header(rng, ver, rand_blocks(rng, rng.choice([0, 1])))
+                    c = Case(f"{ver}:authentic-arbitrary-ciphertext", {"enc_len": el})
+                    i = c.line("spec.tr31_build_rawenc\t" + "\t".join([enc_b(kbpk), enc_header(h), enc_b(rb(rng, el)), "i:0"]))
+                    c.deferred_auth = (kbpk, i)
+                    yield c
     # random strings
     pools = [PRINTABLE, ALNUM, "0123456789ABCDEF", "".join(NASTY) + ALNUM, "ABCD0123456789"]
     for _ in range(300 * reps):
@@ -179,3 +201,28 @@ def generate(rng, tier, seed):
             if not r.ok and r.err != "tr31":
                 c.fail(f"block assignment escaped as {r.err}")
         yield c
+
+
+def _method_unwrap(kbpk, s):
+    return tr31.KeyBlock(kbpk).unwrap(s)
+
+
+def second_pass(cases, replies):
+    """authentic blocks come back from the specification-side builders; offer them to both unwrap entry points"""
+    for c, rep in zip(cases, replies):
+        d = getattr(c, "deferred_auth", None)
+        if not d:
+            continue
+        kbpk, i = d
+        if not rep[i].startswith("ok\ts:"):
+            c.nontrivial = False      # the builder declines (e.g. clear data that is not a whole number of blocks for B / D)
+            continue
+        body = rep[i].split("\t")[1][2:]
+        s = "".join(chr(int(x)) for x in body.split(",")) if body else ""
+        for fn, label in (("tr31.unwrap", "unwrap"), (_method_unwrap, "KeyBlock.unwrap")):
+            r = call_impl(fn, (kbpk, s), stream="tr31")
+            c.calls.append({"fn": label, "args": [enc_b(kbpk), enc_s(s)], "entropy": "", "stream": "tr31"})
+            if not r.ok and r.err != "tr31":
+                c.impl_fail.append(f"{label} of an authentic block escaped as {r.err}")
+            if r.elapsed > WATCHDOG_S:
+                c.impl_fail.append(f"{label} took {r.elapsed:.1f}s (hang watchdog)")
